@@ -123,6 +123,21 @@ fn minimise_in_fresh_process(path: &str, budget: Duration) -> Option<(Value, Vio
 /// (on a violation) minimisation, replay file, and a replay of that file in a
 /// fresh process.
 pub fn run_part(prop: &str, key: &str, seed: u64, runs: u64, tier: Tier, cap_s: u64, distinct_key: &str) -> PartOut {
+    let first = run_part_once(prop, key, seed, runs, tier, cap_s, distinct_key);
+    if first.violation.is_none() && first.stats.counters.get("worker_stalls_not_reproducible_machine_load").copied().unwrap_or(0) > 0 && std::env::var("GSIM_STALL_S").is_err() {
+        // a stall that was machine load ended the batch early: once more, with a stall limit the
+        // load cannot reach (the workers inherit the variable)
+        eprintln!("[{prop}/{key}] the batch was cut short by a stall that was machine load; running it again with a stall limit of 900 s");
+        std::env::set_var("GSIM_STALL_S", "900");
+        let mut second = run_part_once(prop, key, seed, runs, tier, cap_s, distinct_key);
+        std::env::remove_var("GSIM_STALL_S");
+        second.stats.inc("batches_repeated_after_a_stall_that_was_machine_load");
+        return second;
+    }
+    first
+}
+
+fn run_part_once(prop: &str, key: &str, seed: u64, runs: u64, tier: Tier, cap_s: u64, distinct_key: &str) -> PartOut {
     let e = engine_by_key(key).expect("engine key");
     let tag = format!("{prop}/{key}");
     let out = run_batch(key, &tag, seed, runs, tier, Duration::from_secs(cap_s));
